@@ -346,6 +346,10 @@ struct SimBase {
     std::vector<ActionObs> obs;   // filled when `watch` is set
     bool watch = false;
     virtual std::string step(unsigned k) = 0;
+    // the caller goes on using the Config VARIABLE the model was built from (fills it for another model): a model
+    // owns its configuration, so this must not reach it
+    virtual void caller_reuses_config_variable(const Config& other) = 0;
+    virtual const Config& own_config() const = 0;
     virtual ~SimBase() {}
 };
 
@@ -356,7 +360,8 @@ struct Sim : SimBase {
     using MMulti = typename TModel::StandardMultiHostPool;
     using MPests = typename TModel::StandardPestPool;
     const Setup& S;
-    Config config;
+    Config config;        // what the harness itself reads
+    Config model_config;  // the variable handed to the Model constructor (equal to `config` at that moment)
     TModel model;
     std::vector<HostState> hs, prev;
     IRaster dispersers, established, npop;
@@ -377,9 +382,11 @@ struct Sim : SimBase {
     unsigned last_index_seen = 0;
 
     static Config seeded(const Config& base, const SeedSpec& seeds) { Config c(base); seeds.apply(c); return c; }
+    void caller_reuses_config_variable(const Config& other) override { model_config = other; }
+    const Config& own_config() const override { return config; }
 
     Sim(const Setup& S_, const SeedSpec& seeds, F& factory)
-        : S(S_), config(seeded(S_.config, seeds)), model(config, factory), hs(S_.hosts), dispersers(S_.rows, S_.cols, 0),
+        : S(S_), config(seeded(S_.config, seeds)), model_config(config), model(model_config, factory), hs(S_.hosts), dispersers(S_.rows, S_.cols, 0),
           established(S_.rows, S_.cols, 0), npop(S_.npop), quarantine_areas(S_.rows, S_.cols, 1),
           quarantine(IRaster(S_.rows, S_.cols, 1), S_.config.ew_res, S_.config.ns_res, 64, S_.config.quarantine_directions),
           network(Network<int>::null_network()) {
@@ -566,6 +573,9 @@ static void twice_case(Case& c) {
     std::vector<std::string> inter, tinter(T.nsteps, "-");
     {
         Run a = start<StdE>(S, ss), b = start<StdE>(T, ts);
+        // ... and the caller reuses the Config variable of `a` for the unrelated configuration (a parameter sweep
+        // written as  Model a(cfg); cfg = ...; Model b(cfg);)
+        if (a.sim && b.sim) { a.sim->caller_reuses_config_variable(b.sim->own_config()); stats.add("config_variable_reused_after_construction"); }
         for (unsigned k = 0; k < std::max(S.nsteps, T.nsteps); k++) {
             if (k < S.nsteps) inter.push_back(a.step(k));
             if (k < T.nsteps) tinter[k] = b.step(k);
